@@ -786,6 +786,12 @@ impl C13 {
                     // filter false positive: production falls back to streaming the block
                     st.class("filter_false_positive_streamed_instead");
                     stream = Some(mk_stream(&block, &[]));
+                    if matches!(fault, Fault::ProofWrongFilter) {
+                        // an external proof carries no filter: the attested filter header cannot
+                        // be checked on this path (as with a requested streamed delivery)
+                        v.must.retain(|m| *m != "proof");
+                        v.either.push("filter-header-unverifiable-when-streamed");
+                    }
                     external_proof(p.attestations)
                 } else {
                     p
@@ -1004,6 +1010,10 @@ impl C13 {
                     st.class("filter_false_positive_streamed_instead");
                     stream = Some(mk_stream(&tipb.block, &[]));
                     v.either.push("streamed-remove");
+                    if matches!(fault, Fault::ProofWrongFilter) {
+                        v.must.retain(|m| *m != "proof");
+                        v.either.push("filter-header-unverifiable-when-streamed");
+                    }
                     external_proof(p.attestations)
                 } else {
                     p
